@@ -249,7 +249,16 @@ class Scratch:
     """Scratch directory outside /repo and /verif's tracked files, removed on
     exit."""
     def __init__(self, tag):
-        base = os.environ.get("VERIF_SCRATCH", "/dev/shm" if os.path.isdir("/dev/shm") else tempfile.gettempdir())
+        base = os.environ.get("VERIF_SCRATCH")
+        if base is None:
+            base = tempfile.gettempdir()
+            try:
+                # memory-backed scratch only while it has plenty of room (space and inodes)
+                st = os.statvfs("/dev/shm")
+                if st.f_bavail * st.f_frsize > 4 * 2**30 and st.f_favail > 2 * 10**6:
+                    base = "/dev/shm"
+            except OSError:
+                pass
         self.dir = tempfile.mkdtemp(prefix=f"verif-{tag}-", dir=base)
 
     def __enter__(self):
